@@ -2,7 +2,7 @@
 Require Import Parser Render Driver Shape.
 Require Import Api.
 Require Lex.
-Require Import Custom RenderFold TablesTie.
+Require Import Custom CustomTrace RenderFold TablesTie.
 From Coq Require Import List String.
 
 (* for an ARBITRARY table of render functions (any functions, any subset of operators): if some node reachable through
@@ -10,6 +10,22 @@ From Coq Require Import List String.
 Theorem C15_missing_function_fails : forall (o2 : oracle2) (fns : operator -> option (string -> string -> out sres)) (e : expr),
   missing fns e = true -> forall s : string, render_with o2 fns e <> Ret (s, None).
 Proof. exact missing_fails. Qed.
+
+(* Render is a fold: Model/Driver.v render_tr is the same recursion logging every call (operator, left argument, right argument).
+   Erasing the log gives Render; when Render succeeds the calls are the nodes of the tree in post-order - every node exactly
+   once, bottom-up, the left child before the right one; the arguments are the rendered children, in that order, each wrapped in
+   at most one pair of parentheses (by definition of render_tr) *)
+Theorem C15_traced_fold_is_render : forall (o2 : oracle2) (fns : operator -> option (string -> string -> out sres)) (e : expr),
+  erase (render_tr o2 fns e) = render_with o2 fns e.
+Proof. exact traced_fold_is_render. Qed.
+Theorem C15_calls_are_the_nodes_in_postorder : forall (o2 : oracle2) (fns : operator -> option (string -> string -> out sres)) (e : expr) s tr,
+  render_tr o2 fns e = Ret ((s, None), tr) -> ops tr = postorder e.
+Proof. exact calls_are_the_nodes_in_postorder. Qed.
+
+(* replacing one operator's function changes nothing in a tree that has no node of that operator *)
+Theorem C15_override_is_local : forall (o2 : oracle2) (fns fns' : operator -> option (string -> string -> out sres)) (o : operator),
+  (forall op, op <> o -> fns op = fns' op) -> forall e, ~ In o (postorder e) -> render_with o2 fns e = render_with o2 fns' e.
+Proof. exact override_is_local. Qed.
 
 (* the package's postgres Render is that fold, instantiated with the postgres table; and that table is the one generated from
    base.go `Shared` overlaid by postgresql.go (TablesTie.pg_fn_tie: same functions at the same operators, none for FUZZY/BOOST) *)
@@ -31,6 +47,9 @@ Theorem C15_to_postgres_rejects_fuzzy_boost : forall o o2 cl df q e, Api.parse o
 Proof. intros o o2 cl df q e P H s. unfold Api.to_postgres. rewrite P. exact (fuzzy_boost_unsupported o2 e H s). Qed.
 
 Print Assumptions C15_missing_function_fails.
+Print Assumptions C15_traced_fold_is_render.
+Print Assumptions C15_calls_are_the_nodes_in_postorder.
+Print Assumptions C15_override_is_local.
 Print Assumptions C15_postgres_render_is_the_fold.
 Print Assumptions C15_postgres_table_is_the_generated_one.
 Print Assumptions C15_fuzzy_boost_unsupported.
